@@ -424,6 +424,8 @@ func init() {
 		us := ut.Underlying().(*types.Struct)
 		if !s.K {
 			e.sol.Assert(Implies(Eq(s, KStr("")), ok))
+			// userinfo needs an '@' in the text
+			e.sol.Assert(Implies(hasUser, StrContains(s, KStr("@"))))
 			// urlstring(parse(s)) is a fixpoint of parsing (round trip facts are left to refinement)
 		}
 		mk := func(s2 *State) Value {
